@@ -135,6 +135,7 @@ func regName(c *refstore.Client) string {
 
 type issuedCode struct {
 	label, real, id, client, redirect, verifier string
+	used                                        bool // the request it stood for was consumed by a successful exchange
 }
 
 type issuedRT struct {
@@ -394,14 +395,63 @@ func flowStream(prop string, r *hx.Rand, tier string, n int, w *bufio.Writer) ma
 			emit(l)
 			return out
 		}
+		// registrations change in the middle of a history: grant types are removed (or given back), the authentication
+		// method is replaced; a client occasionally keeps presenting itself the way its EARLIER registration asked for
+		prevAuth := map[string]oidc.AuthMethod{}
+		staleAuth := func(fc *flowClient) oidc.AuthMethod {
+			if m, ok := prevAuth[fc.c.ID]; ok && m != oidc.AuthMethodPrivateKeyJWT && r.Chance(12) {
+				return m
+			}
+			return ""
+		}
+		doReregister := func(fc *flowClient, change string) {
+			was := fc.c.Auth
+			methods := []oidc.AuthMethod{oidc.AuthMethodBasic, oidc.AuthMethodNone}
+			if cfg.Post {
+				methods = append(methods, oidc.AuthMethodPost)
+			}
+			if cfg.PrivateKeyJWT {
+				methods = append(methods, oidc.AuthMethodPrivateKeyJWT)
+			}
+			change = reregister(r, fc, change, methods)
+			if fc.c.Auth != was {
+				prevAuth[fc.c.ID] = was
+			}
+			stats["op-reregister"]++
+			stats["reregister-"+strings.SplitN(change, ":", 2)[0]]++
+			emit(reregisterLine(prop, caseNo, fc, change))
+		}
 		// doExchange returns the refresh token delivered with a successful response (nil otherwise)
 		doExchange := func(ic issuedCode, caller *flowClient, redirect, verifier, codeStr, codeLabel string, fault bool) *issuedRT {
-			form := url.Values{"grant_type": {"authorization_code"}, "code": {codeStr}, "redirect_uri": {redirect}}
+			params := []wkv{{k: "grant_type", v: "authorization_code"}, {k: "code", v: codeStr, sym: codeLabel}, {k: "redirect_uri", v: redirect}}
 			if verifier != "" {
-				form.Set("code_verifier", verifier)
+				params = append(params, wkv{k: "code_verifier", v: verifier})
+			}
+			if len(rts) > 0 && r.Chance(8) { // a stray parameter of the OTHER grant
+				params = append(params, wkv{k: "refresh_token", v: rts[r.Intn(len(rts))].token})
 			}
 			l := hx.NewLine(prop).I("case", int64(caseNo)).S("op", "exchange").S("code", codeLabel).S("redirect", redirect).S("verifier", verifier)
-			auth := flowAuth(r, sy, l, caller, cls)
+			authParams, basic := flowAuthWire(r, sy, l, caller, cls, staleAuth(caller))
+			params = append(params, authParams...)
+			// other values a request may carry next to the intended ones (never a second code that could still be redeemed:
+			// an onlooker could not tell which of two redeemable codes a response consumed)
+			alts := map[string][]wkv{
+				"grant_type":    {{v: "refresh_token"}, {v: "bogus"}, {v: ""}},
+				"code":          {{v: "garbage", sym: "garbage"}},
+				"redirect_uri":  {{v: "https://other.example/cb"}, {v: "https://rp.example/cb2"}},
+				"code_verifier": {{v: "wrong"}},
+				"client_id":     {{v: cls[r.Intn(len(cls))].c.ID}},
+				"client_secret": {{v: "wrong"}, {v: cls[0].c.Secret}},
+			}
+			for _, u := range codes {
+				if u.used {
+					alts["code"] = append(alts["code"], wkv{v: u.real, sym: u.label})
+					break
+				}
+			}
+			wr := placeWire(r, params, alts)
+			wr.basic = basic
+			wr.describe(l)
 			before := bed.Store.RefreshTokens()
 			if fault {
 				// storage hiccup: consuming the code fails for this one request
@@ -410,7 +460,7 @@ func flowStream(prop string, r *hx.Rand, tier string, n int, w *bufio.Writer) ma
 			}
 			waitClearOfSecondEdge()
 			t0 := time.Now()
-			resp := bed.Do(bed.Form("/oauth/token", form, auth))
+			resp := bed.Do(wr.request("/oauth/token"))
 			t1 := time.Now()
 			if fault {
 				bed.Store.ClearFaults()
@@ -433,7 +483,16 @@ func flowStream(prop string, r *hx.Rand, tier string, n int, w *bufio.Writer) ma
 					}
 				}
 			}
+			if resp.Status == 200 && !resp.Panicked {
+				for ci := range codes {
+					if bed.Store.GetAuthRequest(codes[ci].id) == nil {
+						codes[ci].used = true
+					}
+				}
+			}
 			stats["op-exchange"]++
+			stats["wire-"+shapeClass(wr.shape)]++
+			stats["exchange-wire-"+shapeBase(wr.shape)+"-"+obsClass(resp)]++
 			stats["exchange-"+obsClass(resp)]++
 			stats["exchange-by-"+regName(caller.c)+"-"+obsClass(resp)]++
 			emit(l)
@@ -441,9 +500,16 @@ func flowStream(prop string, r *hx.Rand, tier string, n int, w *bufio.Writer) ma
 		}
 		// doRefresh presents token string tok (rt = the record it stands for, nil for garbage) as caller
 		doRefresh := func(rt *issuedRT, tok string, caller *flowClient, scopes []string) *issuedRT {
-			form := url.Values{"grant_type": {"refresh_token"}, "refresh_token": {tok}}
+			params := []wkv{{k: "grant_type", v: "refresh_token"}, {k: "refresh_token", v: tok}}
 			if len(scopes) > 0 {
-				form.Set("scope", strings.Join(scopes, " "))
+				params = append(params, wkv{k: "scope", v: strings.Join(scopes, " ")})
+			}
+			if len(codes) > 0 && r.Chance(8) { // stray parameters of the OTHER grant
+				oc := codes[r.Intn(len(codes))]
+				params = append(params, wkv{k: "code", v: oc.real, sym: oc.label}, wkv{k: "redirect_uri", v: oc.redirect})
+				if oc.verifier != "" {
+					params = append(params, wkv{k: "code_verifier", v: oc.verifier})
+				}
 			}
 			// shape of the request (for the distribution only)
 			shape := "unknown-token"
@@ -470,16 +536,44 @@ func flowStream(prop string, r *hx.Rand, tier string, n int, w *bufio.Writer) ma
 				}
 			}
 			l := hx.NewLine(prop).I("case", int64(caseNo)).S("op", "refresh").S("rt", tok).L("scopes", scopes).S("shape", shape)
-			auth := flowAuth(r, sy, l, caller, cls)
+			authParams, basic := flowAuthWire(r, sy, l, caller, cls, staleAuth(caller))
+			params = append(params, authParams...)
+			alts := map[string][]wkv{
+				"grant_type":    {{v: "authorization_code"}, {v: "bogus"}, {v: ""}},
+				"refresh_token": {{v: "garbage"}},
+				"client_id":     {{v: cls[r.Intn(len(cls))].c.ID}},
+				"client_secret": {{v: "wrong"}, {v: cls[0].c.Secret}},
+			}
+			if len(rts) > 0 {
+				alts["refresh_token"] = append(alts["refresh_token"], wkv{v: rts[r.Intn(len(rts))].token}, wkv{v: rts[r.Intn(len(rts))].token})
+			}
+			if len(scopes) > 0 {
+				alts["scope"] = []wkv{{v: strings.Join(append(append([]string{}, scopes...), "admin"), " ")}, {v: scopes[0]}, {v: "admin"}}
+			}
+			wr := placeWire(r, params, alts)
+			wr.basic = basic
+			wr.describe(l)
+			granted := byID[caller.c.ID] != nil && containsStr(grantStrings(caller.c.Grants), "refresh_token")
 			waitClearOfSecondEdge()
 			t0 := time.Now()
-			resp := bed.Do(bed.Form("/oauth/token", form, auth))
+			resp := bed.Do(wr.request("/oauth/token"))
 			t1 := time.Now()
 			l.I("now0", t0.UnixNano()).I("now1", t1.UnixNano())
 			nrt := flowTokenObs(bed, l, resp, &rts)
-			if resp.Status == 200 && !resp.Panicked && rt != nil && tok == rt.token && bed.Store.Refresh(tok) == nil {
-				rt.dead = true
+			for _, x := range rts { // whatever token the request ended up rotating is gone now
+				if !x.dead && bed.Store.Refresh(x.token) == nil {
+					x.dead = true
+				}
 			}
+			if !granted {
+				stats["refresh-by-client-without-refresh-grant"]++
+				stats["refresh-by-client-without-refresh-grant-"+shapeBase(wr.shape)+"-"+obsClass(resp)]++
+				if nrt != nil {
+					stats["refresh-by-client-without-refresh-grant-GOT-TOKENS"]++
+				}
+			}
+			stats["wire-"+shapeClass(wr.shape)]++
+			stats["refresh-wire-"+shapeBase(wr.shape)+"-"+obsClass(resp)]++
 			stats["op-refresh"]++
 			stats["refresh-"+obsClass(resp)]++
 			stats["refresh-"+shape+"-"+obsClass(resp)]++
@@ -500,7 +594,11 @@ func flowStream(prop string, r *hx.Rand, tier string, n int, w *bufio.Writer) ma
 			stats["refresh-chains"]++
 			for i := 0; i < steps && cur != nil; i++ {
 				stats["refresh-chain-steps"]++
-				switch k := r.Intn(12); {
+				switch k := r.Intn(14); {
+				case k == 4: // the owner's registration changes in the middle of the chain
+					doReregister(owner, hx.Pick(r, "drop-refresh", "drop-refresh", "auth", "auth", "restore", "drop-code"))
+				case k == 5 && !containsStr(grantStrings(owner.c.Grants), "refresh_token"): // ... and is repaired
+					doReregister(owner, "restore")
 				case k == 0 && len(rotated) > 0: // replay of a token that was rotated away
 					old := rotated[r.Intn(len(rotated))]
 					doRefresh(old, old.token, owner, nil)
@@ -563,6 +661,38 @@ func flowStream(prop string, r *hx.Rand, tier string, n int, w *bufio.Writer) ma
 					if nrt := doExchange(*ic, fc, ic.redirect, ic.verifier, ic.real, ic.label, false); nrt != nil {
 						stats["scripted-grants"]++
 						refreshChain(nrt)
+					}
+				}
+			}
+		}
+		// a scripted registration change: a client obtains a refresh token, then its registration loses the refresh grant (or
+		// gets another authentication method); it keeps refreshing - every request shaped differently; finally the grant
+		// is given back
+		if prop == "C07" && r.Chance(30) {
+			var elig []*flowClient
+			for _, fc := range cls {
+				if containsStr(grantStrings(fc.c.Grants), "refresh_token") && containsStr(grantStrings(fc.c.Grants), "authorization_code") {
+					elig = append(elig, fc)
+				}
+			}
+			fc := elig[r.Intn(len(elig))]
+			if id := doAuthorize(fc, hx.Pick(r, "openid offline_access", "openid email offline_access"), false, false, ""); id != "" {
+				doLogin(id)
+				if ic := doCallback(id, false); ic != nil {
+					if cur := doExchange(*ic, fc, ic.redirect, ic.verifier, ic.real, ic.label, false); cur != nil {
+						stats["scripted-registration-change"]++
+						doReregister(fc, hx.Pick(r, "drop-refresh", "drop-refresh", "drop-refresh", "auth"))
+						for i := 0; i < 3 && cur != nil; i++ {
+							var sc []string
+							if r.Chance(40) {
+								sc = cur.scopes
+							}
+							if nrt := doRefresh(cur, cur.token, fc, sc); nrt != nil {
+								cur = nrt
+							}
+						}
+						doReregister(fc, "restore")
+						doRefresh(cur, cur.token, fc, nil)
 					}
 				}
 			}
@@ -691,8 +821,21 @@ func flowStream(prop string, r *hx.Rand, tier string, n int, w *bufio.Writer) ma
 					add(9, 2)
 				}
 			}
+			if prop == "C07" {
+				add(10, 2)
+			} else {
+				add(10, 1)
+			}
 			kind := cand[r.Intn(len(cand))]
 			switch {
+			case kind == 10: // a registration changes
+				fc := cls[r.Intn(len(cls))]
+				if len(rts) > 0 && r.Chance(70) {
+					if o := byID[rts[r.Intn(len(rts))].client]; o != nil {
+						fc = o
+					}
+				}
+				doReregister(fc, hx.Pick(r, "drop-refresh", "drop-refresh", "drop-code", "restore", "auth", "auth"))
 			case kind <= 2: // authorize
 				fc := cls[r.Intn(len(cls))]
 				scopes := hx.Pick(r, "openid", "openid profile", "openid offline_access", "openid email offline_access profile")
@@ -876,5 +1019,8 @@ func flowTokenObs(bed *opbed.Bed, l *hx.Line, resp *opbed.Resp, rts *[]*issuedRT
 		l.S("obs", "err").S("o.err", resp.OAuthError()).I("o.status", int64(resp.Status))
 	}
 	l.L("journal", resp.Journal)
+	if h, ok := handedToStorage(resp.Journal); ok {
+		l.S("o.handed", h) // the refresh token the storage was handed for rotation
+	}
 	return out
 }
